@@ -165,7 +165,10 @@ type c07H1Result struct {
 	handed               []c07H1Handed
 }
 
-const c07H1Timeout = 30 * time.Second
+const c07H1Timeout = 20 * time.Second
+
+// set after the first timing-related harness error: the remaining cases are not run (each would wait again)
+var c07H1Dead bool
 
 func c07H1Exec(s *c07frames.H1Script, c c07H1Case) (res c07H1Result) {
 	failf := func(what, format string, args ...interface{}) {
@@ -196,11 +199,26 @@ func c07H1Exec(s *c07frames.H1Script, c c07H1Case) (res c07H1Result) {
 				sc.Dispatch(buf)
 			}
 		}()
-		select {
-		case <-done:
-		case <-time.After(c07H1Timeout):
-			res.harness = fmt.Sprintf("Dispatch did not return within %v after %d bytes", c07H1Timeout, fed)
-			return false
+		dispatchDeadline := time.Now().Add(c07H1Timeout)
+	waitDispatch:
+		for {
+			select {
+			case <-done:
+				break waitDispatch
+			case <-time.After(time.Millisecond):
+			}
+			// serve() may have given up on the earlier bytes meanwhile (error response + close): then nobody reads any more
+			conn.mu.Lock()
+			closed := append([]string(nil), conn.closed...)
+			conn.mu.Unlock()
+			if len(closed) > 0 {
+				failf("connection closed on a valid stream", "%d bytes fed, Dispatch blocked: %v", fed, closed)
+				return false
+			}
+			if time.Now().After(dispatchDeadline) {
+				res.harness = fmt.Sprintf("Dispatch did not return within %v after %d bytes", c07H1Timeout, fed)
+				return false
+			}
 		}
 		want := 0
 		for want < len(s.Reqs) && s.Reqs[want].End <= fed {
@@ -211,6 +229,13 @@ func c07H1Exec(s *c07frames.H1Script, c c07H1Case) (res c07H1Result) {
 		for {
 			got = snapshot()
 			if len(got) >= want {
+				break
+			}
+			// serve() closes the connection (after an error response) when it cannot parse the stream, and ends
+			conn.mu.Lock()
+			nclosed := len(conn.closed)
+			conn.mu.Unlock()
+			if nclosed > 0 {
 				break
 			}
 			// Is the serve goroutine idle, i.e. blocked in Read waiting for more bytes? Only then a
@@ -351,7 +376,7 @@ func TestVerifC07HTTP1Serve(t *testing.T) {
 				mc = 1
 			}
 			ok := c07frames.Segmentations(len(s.Bytes), mc, func(feed string, cuts []int) bool {
-				return yield(c07H1Case{Script: s.Name, Feed: feed, Cuts: cuts, Len: len(s.Bytes)})
+				return !c07H1Dead && yield(c07H1Case{Script: s.Name, Feed: feed, Cuts: cuts, Len: len(s.Bytes)})
 			})
 			if !ok {
 				return
@@ -359,6 +384,9 @@ func TestVerifC07HTTP1Serve(t *testing.T) {
 		}
 	}
 	complete := vreport.Run(p, gen, func(p *vreport.Part, c c07H1Case) {
+		if c07H1Dead {
+			return
+		}
 		s := byName[c.Script]
 		if s == nil {
 			vreport.HarnessError("C07", "http1-segmentation", "unknown script "+c.Script)
@@ -366,6 +394,7 @@ func TestVerifC07HTTP1Serve(t *testing.T) {
 		}
 		res := c07H1Exec(s, c)
 		if res.harness != "" {
+			c07H1Dead = true
 			vreport.HarnessError("C07", "http1-segmentation", fmt.Sprintf("%s (case %+v)", res.harness, c))
 			return
 		}
@@ -406,6 +435,9 @@ func TestVerifC07HTTP1Serve(t *testing.T) {
 			p.Violation("http1 server: requests differ from whole delivery", fmt.Sprintf("whole delivery %+v, this segmentation %+v", w, res.handed), c)
 		}
 	})
+	if c07H1Dead {
+		complete = false
+	}
 	p.End(complete, "5 keep-alive client streams (GET; POST with Content-Length; POST chunked with two chunks; POST then GET; chunked POST then POST), each followed by a sentinel GET, 127-270 bytes; 2-request streams: every segmentation with 0,1,2 cuts; 3-request streams: 0,1 cuts in the quick tier, 0,1,2 in the thorough tier; always the all-single-bytes segmentation and whole delivery as initial buffer",
 		"case = (script, cut list); distinct = script + for each cut the request it falls in and whether at its boundary / in the header block / in the body; outcome = requests handed up after each read. The serve goroutine is real; the harness waits (timeout = harness error, no verdict) for the requests whose last byte was fed. The read buffer is always emptied by Dispatch (bytes move into the connection's bufio.Reader), so the buffer-suffix oracle is not applied here.")
 }
